@@ -220,4 +220,15 @@ SUBS = [
     Sub("container", run_container, strategy=container_strategy, budget=(150, 4000), shards=(2, 16),
         rule="generated file images (N in {1,2,3,5,14}, 0..4 blocks) and the capture's header+table: reserved header words, entry pad words, comment tails overwritten"),
 ]
+
+
+def _adapter(spec, raw, tail):
+    kinds = ["random", "ff", "text", "adversarial"]
+    t = bytes(tail) + b"\x00" * 8
+    return {"spec": spec, "source": "ref", "fill": [kinds[t[0] % 4], int.from_bytes(t[1:5], "little")]}
+
+
+SUBS += [Sub(f"fuzz:{t}", run_blocks, kind="fuzz", fuzz_target=("spec", t, _adapter), budget=(0, 40000), shards=(1, 2),
+             rule=f"Atheris/libFuzzer, library instrumented: bytes -> {t} spec via the reference decoder; every don't-care byte then overwritten "
+                  "by a filler chosen from the input's tail; same metamorphic oracle") for t in specs.TYPES if t not in ("data2D", "calib")]
 TIME_BUDGET = {"quick": 150, "thorough": 1500}
